@@ -10,7 +10,7 @@ from tools import vlib
 from tools.vlib import Outcome, sx
 from tools.props import c05_types as T
 
-HEADER = "use serde::{Deserialize, Serialize};\nuse tauri::ipc::Channel;\n\n"
+HEADER = "use serde::{Deserialize, Serialize};\nuse tauri::ipc::Channel;\nuse tauri::Emitter;\n\n"
 P = lambda n, *a: ["p", n, list(a)]
 STR, I64, I32, BOOL = P("String"), P("i64"), P("i32"), P("bool")
 EXTERNAL = ["Uuid", "PathBuf"]          # names the project does not declare
@@ -47,13 +47,15 @@ def gen_case(rng, i):
     params = [wrap(rng, P(rng.choice(pool))) for _ in range(rng.randint(0, 2))]
     ret = wrap(rng, P(rng.choice(pool))) if rng.random() < 0.6 else STR
     chans = [wrap(rng, P(rng.choice(pool)))] if rng.random() < 0.3 else []
+    # an event whose payload is bound by a let with a plain type name (ts/generator.rs:157-181: its closure is added)
+    events = [P(rng.choice(pool))] if rng.random() < 0.35 else []
     table = {"Uuid": rng.choice(["string", "number", "boolean"])}
     r = rng.random()
     if r < 0.45:
         table[rng.choice(names)] = rng.choice(["string", "number"])          # class C18-4 when that struct is reached
     elif r < 0.6:
         table["PathBuf"] = "string"
-    return {"what": "decl-model", "structs": structs, "params": params, "ret": ret, "channels": chans,
+    return {"what": "decl-model", "structs": structs, "params": params, "ret": ret, "channels": chans, "events": events,
             "table": table, "mode": ["none", "zod"][i % 2]}
 
 
@@ -65,6 +67,8 @@ def source(c):
     args = ["p%d: %s" % (j, T.tts(p)) for j, p in enumerate(c["params"])]
     args += ["ch%d: Channel<%s>" % (j, T.tts(p)) for j, p in enumerate(c["channels"])]
     out.append("#[tauri::command]\npub fn c0(%s) -> %s { todo!() }\n" % (", ".join(args), T.tts(c["ret"])))
+    for j, e in enumerate(c.get("events", [])):
+        out.append("\n#[tauri::command]\npub fn job%d(app: tauri::AppHandle) {\n    let id: %s = todo!();\n    app.emit(\"ev-%d\", id).unwrap();\n}\n" % (j, T.tts(e), j))
     return "".join(out)
 
 
@@ -87,7 +91,7 @@ def evaluate(cases):
     for c, o in zip(cases, obs):
         sexps.append(sx([c["mode"] == "zod", [[k, v] for k, v in sorted(c["table"].items())],
                          [[n, [T.sx_ty(f) for f in fs]] for n, fs in c["structs"]],
-                         [T.sx_ty(t) for t in c["params"] + [c["ret"]] + c["channels"]], o["declared"]]))
+                         [T.sx_ty(t) for t in c["params"] + [c["ret"]] + c["channels"] + c.get("events", [])], o["declared"]]))
     res = vlib.run_runner("c18-declared", sexps)
     outs = []
     for c, o, (model_names, clause_ok, in_class) in zip(cases, obs, res):
